@@ -49,6 +49,9 @@ def gen_histories(tier, seed):
         ("stale_higher_complexity_renamed", [o4, {"op": "plant", "from": ["core_maths", 4], "into": ["core_maths", 3]}, o3]),
         ("same_call_three_times_ext", [e3, e3, e3]),
         ("core_first_then_ext", [o4, P5, e3]),
+        # libraries whose result check repairs several functions (logarithmic bases): the shuffle inside check_results matters there
+        ("log_basis_after_core", [o4, G("base_e_maths", 4)]),
+        ("log10_basis_after_higher_complexity", [G("base_e_maths", 5) if tier != "quick" else o4, e3, G("base10_maths", 4)]),
     ]
     if tier != "quick":
         e4, k3 = G("ext_maths", 4), G("keep_duplicates", 3)
